@@ -17,13 +17,22 @@ Open Scope Z_scope.
 Lemma current_supported : In CURRENT_VERSION SUPPORTED_VERSIONS.
 Proof. apply mem_str_In. vm_compute. reflexivity. Qed.
 
+(** Written to survive harmless re-shapings of the generated chain (another
+    supported constant in the fallback branch, an extra test): every membership
+    test is split, the result is read off, membership is either the test's own
+    hypothesis or computed on the generated constants. *)
+Ltac solve_supported :=
+  first [ apply mem_str_In; assumption
+        | apply mem_str_In; vm_compute; reflexivity ].
+
 Lemma decide_supported : forall x, exists v, server_decide x = Some v /\ In v SUPPORTED_VERSIONS.
 Proof.
-  intros [s|]; unfold server_decide, pv_in.
-  - destruct (mem_str s SUPPORTED_VERSIONS) eqn:E; cbn [negb].
-    + exists s. split; [reflexivity | apply mem_str_In; exact E].
-    + exists CURRENT_VERSION. split; [reflexivity | exact current_supported].
-  - cbn [negb]. exists CURRENT_VERSION. split; [reflexivity | exact current_supported].
+  intros [s|]; unfold server_decide, pv_in, pv_eq;
+    repeat match goal with
+           | |- context [mem_str ?a ?l] => destruct (mem_str a l) eqn:?
+           | |- context [str_eqb ?a ?b] => destruct (str_eqb a b) eqn:?
+           end;
+    cbn [negb andb orb]; eexists; (split; [reflexivity | solve_supported]).
 Qed.
 
 Lemma decide_echo : forall s, In s SUPPORTED_VERSIONS -> server_decide (Some s) = Some s.
